@@ -35,6 +35,8 @@ NAME_CLASSES = [
     ("semicolon", "s;p.%(ext)s"),
     ("colon", "c:d.%(ext)s"),
     ("percent", "p%%41q.%(ext)s"),
+    # link -> ../store/current : "link/.." is the store directory, not the working directory
+    ("symlink-dotdot", "link/../out.%(ext)s"),
 ]
 KINDS = ["error", "torn", "crash"]
 OLD = b"OLD CONTENT that must survive intact \xe2\x9c\x93\n" * 3
@@ -102,18 +104,21 @@ class Sandbox(object):
     """A private directory + sibling temp directory; cwd is the private directory."""
 
     def __init__(self):
-        self.base = tempfile.mkdtemp(prefix="provsim-c17-")
+        self.base = os.path.realpath(tempfile.mkdtemp(prefix="provsim-c17-"))
         self.root = os.path.join(self.base, "work")
         self.tmp = os.path.join(self.base, "tmp")
         os.makedirs(self.root)
         os.makedirs(self.tmp)
         os.makedirs(os.path.join(self.root, "sub", "dir"))
+        self.store = os.path.join(self.base, "store")
+        os.makedirs(os.path.join(self.store, "current"))
+        os.symlink(os.path.join("..", "store", "current"), os.path.join(self.root, "link"))
         self.cwd = os.getcwd()
         os.chdir(self.root)
 
     def listing(self):
         out = []
-        for base in (self.root, self.tmp):
+        for base in (self.root, self.tmp, self.store):
             for dp, dn, fn in os.walk(base):
                 for f in fn:
                     out.append(os.path.relpath(os.path.join(dp, f), self.base))
@@ -184,6 +189,9 @@ def run_once(d, sc, plan, exdev, ref):
                     f.write(b"decoy " + suffix.encode())
                 decoys[dp] = b"decoy " + suffix.encode()
         before = sb.listing()
+        # where the kernel resolves the name to (symlinked directories and ".." included)
+        dest_rel = os.path.relpath(os.path.join(os.path.realpath(os.path.dirname(full)), os.path.basename(full)),
+                                   os.path.realpath(sb.base))
         states = []
 
         def read_dest():
@@ -279,11 +287,11 @@ def run_once(d, sc, plan, exdev, ref):
         if not plan:
             # fault-free: nothing else may appear anywhere
             after = sb.listing()
-            extra = sorted(set(after) - set(before) - {os.path.relpath(full, sb.base)})
+            extra = sorted(set(after) - set(before) - {dest_rel})
             if extra:
                 detail["unexpected_files"] = extra
                 raise Violation("C17", "exact", "written-elsewhere", detail, facts)
-        leaked = sorted(set(sb.listing()) - set(before) - {os.path.relpath(full, sb.base)})
+        leaked = sorted(set(sb.listing()) - set(before) - {dest_rel})
         restart = None
         # bounded liveness: once faults stop, the next serialize to the same path succeeds
         retry = None
